@@ -490,10 +490,14 @@ def build(desc, parallel=True):
     _SHARED_RNG[0] = None
     if desc.get('shared_rng') is not None:
         _SHARED_RNG[0] = np.random.RandomState(desc['shared_rng'])
+    from . import sim as S
     try:
-        ds = make_source(desc['source'])
-        for st in desc['stages']:
-            ds = apply_stage(ds, st, parallel=parallel)
+        # locks the library creates while the pipeline is built must be known
+        # to the simulator that later runs threads over it
+        with S.building():
+            ds = make_source(desc['source'])
+            for st in desc['stages']:
+                ds = apply_stage(ds, st, parallel=parallel)
     finally:
         _SHARED_RNG[0] = None
     return ds
